@@ -113,3 +113,51 @@ def _(tier, rng):
     for i, (m, g, ks, o) in enumerate(cases):
         if i % step == 0:
             yield {'model': m, 'self.min_occurs': g[0], 'self.max_occurs': g[1], 'kids': [list(x) for x in ks], 'other.min_occurs': o[0], 'other.max_occurs': o[1]}
+
+
+# ------------------------------------------------------------------ XsdGroup.is_missing: iterations still due may be empty (C01)
+t = Target('groups.XsdGroup.is_missing', ['C01'], F, 'XsdGroup.is_missing',
+           note='a group still lacks occurrences exactly when its counted iterations are below minOccurs (or it has not occurred at all) AND it cannot be completed by empty '
+                'iterations: a group that is emptiable is never missing, whatever its counter',
+           assumes=['is_emptiable() is an uninterpreted predicate of the group (under its own reading: minOccurs = 0, no particles, or emptiable content)',
+                    'the counter value is occurs[self.oid] or occurs[self] (the high-occurs counter when set)'])
+
+
+@t.symbolic
+def _(run):
+    ex = run.exec(); st = new_state()
+    st.env['self'] = particle(st, 'self'); st.objf['self']['oid'] = VRef(z3.Const('oid', Ref))
+    hi, lo = z3.Ints('occurs_oid occurs_self'); empt = z3.Bool('emptiable')
+
+    def occ(e, s, r, a, k):
+        key = a[0]
+        return VInt(hi) if isinstance(key, VRef) else VInt(lo)
+    st.env['occurs'] = VFunc(occ)
+    ex.callees['is_emptiable'] = lambda e, s, r, a, k: VBool(empt)
+    gmin, gnone, gmax = P(st, 'self')
+    pre = z3.And(wf(st, 'self'), hi >= 0, lo >= 0)
+    run.inputs.update(occurs_oid=hi, occurs_self=lo, emptiable=empt); decl_inputs(run, st, ['self'])
+    outs = ex.run(st, pre)
+    value = z3.If(hi != 0, hi, lo)
+    run.post(ex, outs, pre, {'missing-iff-below-minimum-and-not-completable-by-empty-iterations':
+                             lambda kind, v, s: (v.t == z3.And(z3.Not(empt), z3.Or(value == 0, gmin > value))) if kind == 'return' and isinstance(v, VBool) else z3.BoolVal(False),
+                             'an-emptiable-group-is-never-missing': lambda kind, v, s: z3.Implies(empt, z3.Not(v.t)) if kind == 'return' and isinstance(v, VBool) else z3.BoolVal(False)})
+
+
+@t.concrete
+def _(inp):
+    from collections import Counter
+    g = _real_group('sequence', (inp['self.min_occurs'], inp['self.max_occurs']), [(0, 1)] if inp['emptiable'] else [(1, 1)])
+    if g.is_emptiable() != (inp['emptiable'] or inp['self.min_occurs'] == 0): return dict(ok=True, observed='emptiable flag not realisable', required='-')
+    occ = Counter({g: inp['occurs_self'], g.oid: inp['occurs_oid']})
+    got = g.is_missing(occ); value = inp['occurs_oid'] or inp['occurs_self']; em = g.is_emptiable()
+    want = (not em) and (value == 0 or inp['self.min_occurs'] > value)
+    return dict(ok=got == want, observed=got, required=want, failed=[] if got == want else ['missing-iff-below-minimum-and-not-completable-by-empty-iterations'])
+
+
+@t.scope
+def _(tier, rng):
+    for mn, mx in ((0, 1), (1, 1), (2, 2), (2, None), (1, 3)):
+        for em in (False, True):
+            for hi in (0, 1, 2, 3):
+                for lo in (0, 1, 2): yield {'self.min_occurs': mn, 'self.max_occurs': mx, 'emptiable': em, 'occurs_oid': hi, 'occurs_self': lo}
